@@ -63,7 +63,7 @@ func (w *Worker) mut(id int) *Obj {
 }
 
 func (w *Worker) touch(o *Obj) {
-	if o.Pooled == 2 {
+	if o.Pooled == 2 && len(w.stack) > 0 && !w.isHarnessFn(w.stack[len(w.stack)-1].fn) {
 		w.poolViolation("access to pooled buffer after Put (obj " + o.Tag + ") in " + w.curFn())
 	}
 }
